@@ -330,6 +330,13 @@ func (h *apiHarness) op(f []string) (res string) {
 		code, _, _ := h.do(f[1], f[2], []byte("{}"), nil, "", 0)
 		return fmt.Sprintf("status=%d", code)
 	case "snapshot":
+		// snapshot [<seconds>]: compaction clock = now + seconds (everything older than that minus the
+		// horizon is folded into the serialized state); default: the real clock
+		*canaryCompactionStart = 0
+		if len(f) > 1 {
+			sec, _ := strconv.ParseInt(f[1], 10, 64)
+			*canaryCompactionStart = time.Now().UnixNano() + sec*int64(time.Second)
+		}
 		if err := h.raft.Snapshot().Error(); err != nil {
 			return "error " + err.Error()
 		}
